@@ -555,3 +555,136 @@ def lib_property(prop, tier, seed):
 
     rep.rerun_witness = rerun
     return rep
+
+
+# =========================================================================== C10 / C11: parser
+def simulate_lexer(rules, ignore, text):
+    """token kinds of `text` under the extracted rules (PLY order, Python `re` semantics) - used only to classify failing inputs"""
+    import re as _re
+
+    comp = [(r.name, _re.compile(r.pattern), r.discard) for r in rules]
+    pos, toks = 0, []
+    while pos < len(text):
+        if text[pos] in ignore:
+            pos += 1
+            continue
+        for name, rx_, discard in comp:
+            m = rx_.match(text, pos)
+            if m and m.end() > pos:
+                if not discard and name != "newline":
+                    toks.append((name, m.group(0)))
+                pos = m.end()
+                break
+        else:
+            toks.append(("ERROR", text[pos]))
+            pos += 1
+    return toks
+
+
+def parser_property(prop, tier, seed):
+    from . import lexprops, parseprops, parsecases
+
+    root = REPO
+    repo = Repo(root)
+    rep = Report(prop, tier, seed, "other", "./check %s --tier %s" % (prop, tier))
+    rep.trusted = ["PLY engines (assumed contracts LEX / YACC, DESIGN C10): rules are tried in the extracted order, first match wins, t_ignore characters are skipped; "
+                   "yacc applies the actions along the LALR(1) parse, p.lineno(k)/p.lexpos(k) are the line/offset of the first token of symbol k, "
+                   "lexer.input() resets lexpos but not lineno; a SyntaxError raised inside an action is swallowed",
+                   "Python regexes are translated to SMT regular expressions through re._parser (language level: greedy/lazy and backtracking order "
+                   "do not change the language; \\d is taken as [0-9])",
+                   "int()/float() accept the documented number lexemes; str.count, slicing, encode('latin-1','backslashreplace') + decode('unicode_escape') "
+                   "(= the spec function `unescape`, raising UnicodeDecodeError exactly for invalid escapes) are assumed contracts"]
+    want = {"C10": {"lexeme", "token", "action", "raises_only", "cover"}, "C11": {"lineno", "cover"}}[prop]
+    recs = []
+    try:
+        lrecs, info = lexprops.lemmas(repo)
+        recs += lrecs
+        rep.extra["lexer_rule_order"] = info["order"]
+    except Exception as e:
+        rep.errors.append("lexeme lemmas: %s: %s" % (type(e).__name__, e))
+        info = None
+    for f in (parseprops.verify_token_functions, parseprops.verify_parse_entry, parseprops.verify_actions):
+        try:
+            r, fns = f(repo)
+            recs += [{k: v for k, v in x.items() if k not in ("model_obj", "state")} for x in r]
+            rep.functions += fns
+        except Exception as e:
+            import traceback
+
+            rep.errors.append("%s: %s: %s %s" % (f.__name__, type(e).__name__, e, traceback.format_exc()[-600:]))
+    for r in recs:
+        cl = r.get("clause") or r.get("kind")
+        if cl not in want:
+            continue
+        rep.add_vc(r["name"], r["status"], r.get("function"), cl, r.get("backend"), r.get("time_s", 0),
+                   detail={"goal": r.get("goal"), "witness": r.get("witness"), "reason": r.get("reason"), "trail": r.get("trail")})
+        if r["status"] == "sat":
+            rep.violations.append({"obligation": r["name"], "function": r.get("function"), "how": "counter-model", "witness": r.get("witness"),
+                                   "detail": {"goal": r.get("goal"), "witness": r.get("witness")}, "solver_output": "sat (%s)" % r.get("backend"),
+                                   "confirmed": False})
+        elif r["status"] != "unsat":
+            rep.undecided.append({"obligation": r["name"], "reason": r.get("reason") or "unknown"})
+    rep.samples = [{"obligation": r["name"], "clause": r.get("clause"), "verdict": r["status"]} for r in recs[:5]]
+    # ---- bounded stand-in for the PLY engines
+    t0 = time.time()
+    cases = parsecases.cases(tier, seed)
+    outs = parsecases.run_real(cases, root)
+    clause = {"C10": ("value", "raises_only"), "C11": ("lineno",)}[prop]
+    rules, ignore = lexprops.extract_rules(repo) if info is not None else ([], "")
+    distinct, fails = set(), 0
+    for c, o in zip(cases, outs):
+        distinct.add(c["sources"][-1])
+        bad = [b for b in parsecases.judge(c, o) if b[0] in clause]
+        if not bad:
+            continue
+        fails += 1
+        v = {"obligation": "mpilot/parser/parser.py::Parser.parse/bounded:%s" % bad[0][0], "function": "mpilot/parser/parser.py::Parser.parse",
+             "how": "bounded-concrete", "case": {"sources": c["sources"], "same_parser": c["same_parser"], "layout": c["layout"]},
+             "real": o, "violated": sorted(set(b[0] for b in bad)), "violated_detail": bad[:5], "confirmed": True}
+        # signature of the recorded finding: text rejected with SyntaxError whose unquoted value ends in a number token after other tokens
+        if prop == "C10" and all(b[0] == "value" and "rejected with SyntaxError" in b[2] for b in bad):
+            for text in c.get("plains", []):
+                toks = simulate_lexer(rules, ignore, text)
+                if len(toks) >= 2 and toks[-1][0] in ("INT", "FLOAT") and any(t[0] in ("ID", "PLAIN_STRING") for t in toks[:-1]):
+                    v["known_id"] = "C10-unquoted-text-ending-in-a-number"
+        rep.violations.append(v)
+    if prop == "C10":
+        cc = parsecases.corruption_cases(tier, seed)
+        co = parsecases.run_real(cc, root)
+        for c, o in zip(cc, co):
+            distinct.add(c["sources"][0])
+            bad = parsecases.judge_corruption(c, o)
+            if bad:
+                fails += 1
+                rep.violations.append({"obligation": "mpilot/parser/parser.py::Parser.parse/bounded:%s" % ("rejects-malformed" if bad[0][0] == "value" else bad[0][0]),
+                                       "function": "mpilot/parser/parser.py::Parser.parse", "how": "bounded-concrete", "case": {"sources": c["sources"], "corruption": c["corruption"]},
+                                       "real": o, "violated": [b[0] for b in bad], "violated_detail": bad, "confirmed": True})
+        cases = cases + cc
+    rep.bounded = {"label": "bounded stand-in for the PLY lex/yacc engines (never counted as proved)", "evaluations": len(cases), "distinct_nontrivial": len(distinct),
+                   "failures": fails, "wall_s": round(time.time() - t0, 1),
+                   "rule": "one program per alphabet value (ints, decimals, %d unquoted texts, %d quoted contents incl. quotes, backslashes, delimiters, non-ASCII) "
+                           "x layouts (tight, spaced, multi-line, comments, trailing commas, CRLF) + random programs (<=3 commands, <=3 arguments, nested lists, tuples, "
+                           "EEMS 2.0 commands); parse(render(ast)) is compared with ast incl. the line of every command, argument and element; the same text is "
+                           "parsed 2-3 times on one Parser object; single-token corruptions must not raise anything but SyntaxError / MPilotError; distinct by text"
+                           % (len(parsecases.PLAINS), len(parsecases.QSTRS))}
+    if prop == "C10":
+        rep.explanation = ("Proved: the token regexes accept exactly the documented lexemes, no earlier rule pre-empts them, maximal munch stops at the lexeme (regular-language "
+                           "emptiness queries over the rule strings extracted from the source, in PLY's order); the token functions convert to the number written / the "
+                           "unescaped text between the delimiting quotes and raise only SyntaxError; each of the grammar actions leaves in p[0] the abstract-syntax value "
+                           "of its production (order and slots preserved); Parser.parse hands the text to the PLY parser with cleared per-parse state. Assumed: the PLY "
+                           "engines. Bounded: parse(render(ast)) = ast over the alphabet and layouts, and rejection of corrupted texts.")
+    else:
+        rep.explanation = ("Proved: t_newline / t_STRING advance lineno by exactly the line breaks they consume, no other rule can consume a line break (L-NL), "
+                           "count_line_breaks counts LF, CR and CR/LF once each, Parser.parse resets lineno to 1 before every parse, every node-building action stores "
+                           "p.lineno(1) (the line of the node's first token); error classes report the line they were given; the cleaners pass on the line they were given "
+                           "(see also C12/C13). Assumed: LEX/YACC contracts. Bounded (B-LINES): real parses incl. CRLF, comments, multi-line arguments and repeated parses "
+                           "on one Parser object.")
+
+    def rerun(w):
+        if not w or w.get("kind") != "parse-case":
+            return None
+        o = parsecases.run_real([{"sources": w["sources"], "same_parser": False}], root)[0]
+        return ["value"] if any(x["outcome"] != "ok" for x in o) else []
+
+    rep.rerun_witness = rerun
+    return rep
